@@ -1,6 +1,7 @@
 package props
 
 import (
+	"math"
 	"unicode/utf8"
 	"fmt"
 	"sort"
@@ -69,7 +70,32 @@ func TestC16(t *testing.T) {
 		eng.ModelHost(m)
 		if isRange {
 			lo := rapid.Int64Range(-4, 6).Draw(rt, "lo")
-			hi := lo + rapid.Int64Range(-2, 7).Draw(rt, "span")
+			span := rapid.Int64Range(-2, 7).Draw(rt, "span")
+			if gen.Uniform(rt, "farrange", 4) == 0 {
+				// ranges far from zero: at the ends of the integers and around the
+				// powers of two where narrower integers and floats give up
+				ends := []int64{math.MaxInt64, math.MaxInt64 - 1, math.MaxInt64 - 5, math.MinInt64 + 1, math.MinInt64 + 8, 1 << 31, -(1 << 31), 1 << 32, 1 << 53, -(1 << 53), 65535, 1 << 62}
+				e := ends[gen.Uniform(rt, "rangeend", len(ends))]
+				if e > 0 {
+					if span < 0 {
+						span = 0
+					}
+					lo = e - span // the range ends at e
+				} else {
+					lo = e
+					if span > 6 {
+						span = 6
+					}
+					if span < 0 {
+						span = 0
+					}
+				}
+				col.Class("range-far-from-zero")
+			}
+			hi := lo + span
+			if hi == math.MinInt64 {
+				hi = lo // the smallest integer has no literal
+			}
 			ce = lang.Binary{Op: "..", L: lang.Lit{V: lang.Int(lo)}, R: lang.Lit{V: lang.Int(hi)}}
 			if hi >= lo {
 				clen = int(hi-lo) + 1
